@@ -210,4 +210,98 @@ theorem causal_from_entry (pre rest extra : List Change) (cs : Nat) (csC : Chang
     · exact Or.inr (key _ e hls)
 
 
+theorem attach_direct_added (f : Nat) (t : T) (c : Change) (hun : t.unatt = []) :
+    (attach (f + 1) t c).added = t.added ++ [c.id] := by
+  have h := cascade_noop f ((t.wait.filter (·.1 == c.id)).map (·.2))
+    { t with att := t.att ++ [c], added := t.added ++ [c.id], unatt := t.unatt.filter (·.id != c.id) }
+    (by simp [hun])
+  unfold attach
+  simp only
+  exact (congrArg T.added h).trans rfl
+
+theorem addOne_direct_added (t : T) (c : Change) (hun : t.unatt = []) (hroot : t.root.isSome = true)
+    (hne : c.prevs ≠ []) (hp : ∀ p ∈ c.prevs, t.has p = true) (hs : t.has c.snap = true) :
+    (addOne t c).added = t.added ++ [c.id] := by
+  unfold addOne
+  split
+  · rename_i h; simp [h] at hroot
+  · rw [canAttach_ok hne hp hs]
+    simp only
+    rw [hun]
+    exact attach_direct_added 0 t c hun
+
+/-- a causally ordered run reports every change it newly attaches (`addedBuf`) -/
+theorem addAll_causal_added : ∀ (l : List Change) (t : T), t.unatt = [] → t.root.isSome = true → CausalFor t l →
+    (∀ x ∈ t.added, x ∈ (addAll t l).added) ∧ (∀ c ∈ l, t.has c.id = false → c.id ∈ (addAll t l).added) := by
+  intro l
+  induction l with
+  | nil => intro t _ _ _; exact ⟨fun x hx => hx, by simp⟩
+  | cons c l ih =>
+    intro t hun hroot hc
+    have hsplit : addAll t (c :: l) = addAll (addAll t [c]) l := by
+      unfold addAll; rfl
+    have hc1 : CausalFor t [c] := by
+      have : CausalFor t ([c] ++ l) := by simpa using hc
+      exact this.prefix
+    obtain ⟨a1, a2, a3, a4, _, _⟩ := addAll_causal [c] t hun hroot hc1
+    have hcaus : CausalFor (addAll t [c]) l := by
+      intro l1 d l2 hdec
+      have := hc (c :: l1) d l2 (by rw [hdec]; rfl)
+      refine ⟨?_, ?_, this.2.2.imp id (fun h => a3 _ h)⟩
+      · intro p hp
+        rcases this.1 p hp with h | h
+        · exact Or.inl (a3 p h)
+        · rcases List.mem_cons.mp h with e | e
+          · left; rw [e]; exact a4 c (by simp)
+          · exact Or.inr e
+      · rcases this.2.1 with h | h
+        · exact Or.inl (a3 _ h)
+        · rcases List.mem_cons.mp h with e | e
+          · left; rw [e]; exact a4 c (by simp)
+          · exact Or.inr e
+    obtain ⟨i1, i2⟩ := ih (addAll t [c]) a1 (by rw [a2]; exact hroot) hcaus
+    -- the first step
+    have hstep : (∀ x ∈ t.added, x ∈ (addAll t [c]).added) ∧ (t.has c.id = false → c.id ∈ (addAll t [c]).added) := by
+      have h0 := hc [] c l rfl
+      have e : addAll t [c] = if t.has c.id || t.hasUn c.id then t else addOne t c := by
+        unfold addAll; rfl
+      cases hh : t.has c.id
+      · have hunf : t.hasUn c.id = false := by simp [T.hasUn, hun]
+        have hp : ∀ p ∈ c.prevs, t.has p = true := by
+          intro p hp; rcases h0.1 p hp with h | h
+          · exact h
+          · simp at h
+        have hs : t.has c.snap = true := by
+          rcases h0.2.1 with h | h
+          · exact h
+          · simp at h
+        have hne : c.prevs ≠ [] := by
+          rcases h0.2.2 with h | h
+          · exact h
+          · rw [h] at hh; exact Bool.noConfusion hh
+        rw [e]; simp only [hh, hunf, Bool.or_self, Bool.false_eq_true, if_false]
+        rw [addOne_direct_added t c hun hroot hne hp hs]
+        exact ⟨fun x hx => List.mem_append.mpr (Or.inl hx), fun _ => by simp⟩
+      · rw [e]; simp only [hh, Bool.true_or, if_true]
+        exact ⟨fun x hx => hx, fun h => Bool.noConfusion h⟩
+    rw [hsplit]
+    refine ⟨fun x hx => i1 x (hstep.1 x hx), ?_⟩
+    intro d hd hnot
+    rcases List.mem_cons.mp hd with e | e
+    · rw [e]; exact i1 _ (hstep.2 (e ▸ hnot))
+    · by_cases hh : (addAll t [c]).has d.id = true
+      · -- same id as `c` (attached by the first step): reported there
+        have : d.id = c.id := by
+          -- `d` was not attached before and is attached after the step: only `c` was attached
+          obtain ⟨_, _, _, _, a5, _⟩ := addAll_causal [c] t hun hroot hc1
+          obtain ⟨x, hx, hxid⟩ := List.mem_map.mp (has_iff.mp hh)
+          rcases a5 x hx with h | h
+          · have : t.has d.id = true := has_iff.mpr (List.mem_map.mpr ⟨x, h, hxid⟩)
+            rw [this] at hnot; exact Bool.noConfusion hnot
+          · have : x = c := by simpa using h
+            rw [← hxid, this]
+        rw [this]; exact i1 _ (hstep.2 (this ▸ hnot))
+      · exact i2 d e (by simpa using hh)
+
+
 end AnySync.Tree
